@@ -46,8 +46,14 @@ theorem namesake : ∀ r ∈ Gen.table, rowNamesake r = true := by decide +kerne
 /-- Every row pulls in the header that declares its C++ function. -/
 theorem header : ∀ r ∈ Gen.table, rowHeader r = true := by decide +kernel
 
-/-- Every row declares the result `double`. -/
-theorem return_double : ∀ r ∈ Gen.table, rowReturnDouble r = true := by decide +kernel
+/-- Every row declares as result type the type C++ really gives the call on `double` arguments:
+`double`, and `int` for `ilogb` — so the value is held exactly and the arithmetic around the call
+is typed as the compiler types it (the cast of an int/int division is emitted exactly when C++
+would truncate). -/
+theorem return_type_faithful : ∀ r ∈ Gen.table, rowRetFaithful r = true := by decide +kernel
+
+/-- … and that type is `int` or `double`. -/
+theorem return_type_numeric : ∀ r ∈ Gen.table, r.ret = "int" ∨ r.ret = "double" := by decide +kernel
 
 /-- Every declared result type (and `double`, the type of `/` and `**`) is a key of
 `_type_priority`: `most_accurate_type` never asserts on a math call. -/
@@ -55,18 +61,6 @@ theorem table_arith : TableArith Gen.cfg = true := by decide +kernel
 
 /-- The four together (the row-level Spec the harness also evaluates on the live table). -/
 theorem spec_row : ∀ r ∈ Gen.table, SpecRow Gen.typePriority r = true := by decide +kernel
-
-/-
-FULL STATEMENT (false): ∀ r ∈ Gen.table, rowRetFaithful r — the declared result type is the type
-C++ gives the call.  `std::ilogb` returns `int` and is declared `double`.
--/
-/-- Except for `ilogb`, the declared result type is the C++ result type of the call on `double`
-arguments. -/
-theorem return_type_faithful_partial : ∀ r ∈ Gen.table, r.cpp ≠ "std::ilogb" → rowRetFaithful r = true := by
-  decide +kernel
-
-theorem return_type_faithful_counterexample :
-    ∃ r ∈ Gen.table, r.py = "ilogb" ∧ rowRetFaithful r = false := by decide +kernel
 
 /-
 FULL STATEMENT (false): ∀ f ∈ Gen.readmeFunctions, the `<cmath>` function it names can be called
@@ -81,27 +75,16 @@ theorem callable_by_value_counterexample :
     "remquo" ∈ Gen.readmeFunctions ∧ (meaningPy "remquo").any MathFn.callableByValue = false := by
   decide +kernel
 
-/-
-FULL STATEMENT (false): ∀ f ∈ Gen.readmeFunctions, acceptedAs Gen.cfg f — a call of the documented
-name, as written in a query, reaches a row that is its namesake.  `round` is a python built-in, so
-the resolver looks for `builtins.round`, which is not a key: the call is left alone and the
-translator then refuses it.
--/
-/-- Every documented name except `round`, written as a call in a query, is replaced by a row whose
-C++ function is its namesake — through `eval`: `abs` and `pow` reach `builtins.abs`/`builtins.pow`,
-all others their bare key. -/
-theorem documented_accepted_partial :
-    ∀ f ∈ Gen.readmeFunctions, f ≠ "round" → acceptedAs Gen.cfg f = true := by decide +kernel
-
-theorem documented_accepted_counterexample :
-    "round" ∈ Gen.readmeFunctions ∧ acceptedAs Gen.cfg "round" = false ∧
-    (tr Gen.cfg (.call "round" [.leaf "x" "double"])).toOption = none := by decide +kernel
+/-- Every documented name, written as a call in a query, is replaced by a row whose C++ function
+is its namesake — through `eval`: `abs`, `pow` and `round` are python built-ins and reach
+`builtins.abs` / `builtins.pow` / `builtins.round`, all others their bare key. -/
+theorem documented_accepted : ∀ f ∈ Gen.readmeFunctions, acceptedAs Gen.cfg f = true := by decide +kernel
 
 /-- Every row is reached by the call of its own bare key, except the rows `abs`, `pow`, `round`
-(dead: python's `eval` finds the built-in first) and the two `builtins.` rows (reached by `abs`,
-`pow`). -/
+(dead: python's `eval` finds the built-in first) and the three `builtins.` rows (reached by `abs`,
+`pow`, `round`). -/
 theorem rows_reached_partial :
-    ∀ r ∈ Gen.table, r.py ∉ ["abs", "pow", "round", "builtins.abs", "builtins.pow"] →
+    ∀ r ∈ Gen.table, r.py ∉ ["abs", "pow", "round", "builtins.abs", "builtins.pow", "builtins.round"] →
       (findKnown Gen.table Gen.evalEnv r.py).toOption = some (some r) := by decide +kernel
 
 /-- The operator tables give `+ - * /` and unary `+ -` their C++ symbols, `**` has no entry (it is
@@ -375,7 +358,7 @@ Gen.readmeFunctions e`: numeric operands, calls of documented functions, `+ - * 
 the translator accepts `e`, the emitted C++ means what `e` means with every function read by its
 documented name, the needed headers are included and the result has an arithmetic type:
     ∀ e, SpecTerm Gen.readmeFunctions e (tr Gen.cfg e) = true.
-Counterexamples below: `round(x)`, `remquo(x, y, 0)`, `ilogb(x)/2`, `abs(n)/2` with `n : int`.
+Counterexamples below: `remquo(x, y, 0)`, `abs(n)/2` with `n : int`.
 -/
 /-- **C12, on the model, for every expression in scope** (no bound on size or nesting): the query
 is accepted; the C++ expression emitted *denotes the same value as the query under every
@@ -387,10 +370,9 @@ records is the type the C++ compiler gives the expression.
 Scope (`Scoped Gen.cfg e`, decidable): operands of type `int`/`double`; operators `+ - * / **`,
 unary `+ -`; every call resolves to a row that is the namesake of the written name and whose
 declared result type is the C++ result type for the argument types at hand.  By
-`documented_plain_partial` and `abs_scope_partial` that is: every documented function except `round`
-(defect: refused), `remquo` (defect: needs an `int*`), `ilogb` (defect: returns `int`, declared
-`double`) and `abs` applied to integers only (defect: `std::abs(int)` is `int`, declared
-`double`).  `float` operands are outside the abstraction (single-precision overloads), not a known defect. -/
+`documented_plain_partial` and `abs_scope_partial` that is: every documented function except
+`remquo` (defect: needs an `int*`) and `abs` applied to integers only (defect: `std::abs(int)` is
+`int`, declared `double`).  `float` operands are outside the abstraction (single-precision overloads), not a known defect. -/
 theorem computes_namesake_partial : ∀ e : PExpr, Scoped Gen.cfg e = true →
     ∃ v, tr Gen.cfg e = .ok v ∧ csym v.term = psym e ∧ CT.ofName v.ty = v.term.ctype ∧
       (v.ty = "int" ∨ v.ty = "double") ∧
@@ -433,14 +415,14 @@ theorem spec_partial : ∀ e : PExpr, Scoped Gen.cfg e = true →
     obtain ⟨_, _, _, _, hv⟩ := scoped_calls Gen.cfg e h f hf
     exact hv
 
-/-- **The scope, per function.** Every documented function other than `round`, `ilogb`, `abs`, `remquo`
+/-- **The scope, per function.** Every documented function other than `abs`, `remquo`
 satisfies the call condition of `Scoped` for *all* argument types … -/
 theorem documented_plain_partial :
-    ∀ f ∈ Gen.readmeFunctions, f ∉ ["round", "ilogb", "abs", "remquo"] → plainRow Gen.cfg f = true := by
+    ∀ f ∈ Gen.readmeFunctions, f ∉ ["abs", "remquo"] → plainRow Gen.cfg f = true := by
   decide +kernel
 
 theorem documented_scoped_partial (f : String) (hf : f ∈ Gen.readmeFunctions)
-    (hx : f ∉ ["round", "ilogb", "abs", "remquo"]) (tys : List CT) : callOk Gen.cfg f tys = true :=
+    (hx : f ∉ ["abs", "remquo"]) (tys : List CT) : callOk Gen.cfg f tys = true :=
   callOk_of_plainRow (documented_plain_partial f hf hx) tys
 
 /-- … and `abs` satisfies it whenever not all of its arguments are integers (`std::abs(int)` is
@@ -500,7 +482,7 @@ theorem documented_clean_scoped : ∀ e : PExpr, Documented Gen.readmeFunctions 
       · simp [h]
     · apply documented_scoped_partial f hf
       simp only [List.mem_cons, List.mem_nil_iff, or_false, not_or] at hnot ⊢
-      exact ⟨hnot.1, hnot.2.2, ha, hnot.2.1⟩
+      exact ⟨ha, hnot⟩
   | .bin op l r, hd, hc => by
     simp only [Documented, Bool.and_eq_true] at hd
     simp only [Clean, Bool.and_eq_true] at hc
@@ -541,41 +523,23 @@ theorem c12_partial (e : PExpr) (hd : Documented Gen.readmeFunctions e = true) (
   obtain ⟨v, h1, h2, h3, _, h5⟩ := computes_namesake_partial e hs
   exact ⟨spec_partial e hs, v, h1, h2, h3, h5⟩
 
-/-- A documented expression without `round` is never refused with "Do not know how to call", and
-no documented name makes the resolver raise. -/
-theorem documented_never_refused_partial (e : PExpr) (f : String) (hf : f ∈ Gen.readmeFunctions) :
-    (tr Gen.cfg e = .error (.unknownCall f) → f = "round") ∧
-    tr Gen.cfg e ≠ .error (.attributeError f) := by
+/-- A documented expression is never refused with "Do not know how to call" one of the documented
+functions, and no documented name makes the resolver raise. -/
+theorem documented_never_refused (e : PExpr) (f : String) (hf : f ∈ Gen.readmeFunctions) :
+    tr Gen.cfg e ≠ .error (.unknownCall f) ∧ tr Gen.cfg e ≠ .error (.attributeError f) := by
   constructor
   · intro h
     obtain ⟨_, hn⟩ := (refused_only_unresolved Gen.cfg e f).1 h
-    by_cases hr : f = "round"
-    · exact hr
-    · have := documented_accepted_partial f hf hr
-      unfold acceptedAs at this
-      simp only [Gen.cfg] at hn
-      simp [Gen.cfg, hn] at this
+    have := documented_accepted f hf
+    unfold acceptedAs at this
+    simp only [Gen.cfg] at hn
+    simp [Gen.cfg, hn] at this
   · intro h
     obtain ⟨_, hn⟩ := (refused_only_unresolved Gen.cfg e f).2 h
     have all : ∀ g ∈ Gen.readmeFunctions, Gen.evalEnv.get g ≠ .noModuleAttr := by decide +kernel
     exact all f hf hn
 
 /-! ### counterexamples: where the full statement is false of the code -/
-
-/-- `round(x)`: documented, refused ("Do not know how to call 'round'"). -/
-theorem computes_namesake_counterexample_round :
-    Documented Gen.readmeFunctions (.call "round" [.leaf "x" "double"]) = true ∧
-    SpecTerm Gen.readmeFunctions (.call "round" [.leaf "x" "double"])
-      (tr Gen.cfg (.call "round" [.leaf "x" "double"])) = false := by decide +kernel
-
-/-- `ilogb(x)/2`: accepted, but `std::ilogb` returns `int` while the row declares `double`, so no
-cast is emitted and C++ divides integers: the emitted `(std::ilogb(x)/2)` means `idiv`, the query
-means real division. -/
-theorem computes_namesake_counterexample_ilogb :
-    Documented Gen.readmeFunctions (.bin "Div" (.call "ilogb" [.leaf "x" "double"]) (.leaf "2" "int")) = true ∧
-    SpecTerm Gen.readmeFunctions (.bin "Div" (.call "ilogb" [.leaf "x" "double"]) (.leaf "2" "int"))
-      (tr Gen.cfg (.bin "Div" (.call "ilogb" [.leaf "x" "double"]) (.leaf "2" "int"))) = false := by
-  decide +kernel
 
 /-- `abs(n)/2` with `n : int`: `std::abs(int)` is `int`, the row declares `double`: integer
 division again. -/
@@ -602,6 +566,12 @@ theorem computes_namesake_counterexample_remquo :
 -- `sin(x)*2 + 1`
 example : Scoped Gen.cfg (.bin "Add" (.bin "Mult" (.call "sin" [.leaf "x" "double"]) (.leaf "2" "int")) (.leaf "1" "int")) = true := by
   decide +kernel
+-- the two repaired inputs: `round(x)` (reaches `builtins.round`) and `ilogb(x)/2` (declared `int`,
+-- so the cast that keeps `/` a real division is emitted)
+example : Scoped Gen.cfg (.call "round" [.leaf "x" "double"]) = true := by decide +kernel
+example : (tr Gen.cfg (.bin "Div" (.call "ilogb" [.leaf "x" "double"]) (.leaf "2" "int"))).toOption.map
+    (fun v => (render v.term, v.ty)) = some ("(static_cast<double>(std::ilogb(x))/2)", "double") ∧
+    Scoped Gen.cfg (.bin "Div" (.call "ilogb" [.leaf "x" "double"]) (.leaf "2" "int")) = true := by decide +kernel
 -- `1/2 + abs(y)`, `pow(x, 2)/3`, `-hypot(x, y) ** ldexp(x, 3)`
 example : Scoped Gen.cfg (.bin "Add" (.bin "Div" (.leaf "1" "int") (.leaf "2" "int")) (.call "abs" [.leaf "y" "double"])) = true := by
   decide +kernel
